@@ -218,7 +218,8 @@ func (e *Enc) call(x *ssa.Call, st *State) {
 	// modifies
 	if ct.ModHeap {
 		e.havocAll(st)
-	} else {
+	}
+	{
 		for _, mc := range ct.Modifies {
 			obj, t := e.evalModTarget(mc, envPre)
 			if obj == "" {
